@@ -48,3 +48,59 @@ Theorem C11_uninstall_idempotent : forall ops id,
   let s := hrun ops hs0 in meta (hstep (hstep s (Uninstall id)) (Uninstall id)) = meta (hstep s (Uninstall id)).
 Proof. intros ops id s. cbn. apply uninstall_idempotent. apply (hinv_run ops hs0 hinv0). Qed.
 Print Assumptions C11_uninstall_idempotent.
+
+(* ---------- the other two front ends (model/HookFront.v) ---------- *)
+From JT Require Import model.HookFront proofs.HookFrontFacts.
+
+(* `--jaxtyping-packages=v`: the names installed and the checker are exactly the comma-separated, stripped items
+   of v, the last one being the checker; none of the names was imported before *)
+Theorem C11_pytest_option_items : forall imported v names chk,
+  pytest_configure imported v = PInstall names chk ->
+  v <> "" /\ (names ++ [chk])%list = pytest_items v /\ forall n, In n names -> ~ In n imported.
+Proof. exact pytest_configure_spec. Qed.
+Print Assumptions C11_pytest_option_items.
+
+(* written by a user as names and a checker, each optionally padded with whitespace and joined with commas, the
+   option is install_import_hook(names, checker) followed by the session's imports -- so the scope theorems
+   above apply to it unchanged *)
+Theorem C11_pytest_option_is_install : forall preload ps pc imports,
+  Forall good_item (ps ++ [pc]) -> join_on ","%char (map pad (ps ++ [pc])) <> "" ->
+  (forall n, In n (map core ps) -> ~ In n (akeys (loaded (hrun (map Import preload) hs0)))) ->
+  pytest_run preload (join_on ","%char (map pad (ps ++ [pc]))) imports =
+  Some (hrun (Install (map core ps) (Some (core pc)) :: map Import imports) (hrun (map Import preload) hs0)).
+Proof. exact pytest_option_is_install. Qed.
+Print Assumptions C11_pytest_option_is_install.
+
+(* a name that is already imported makes the configuration fail, naming exactly those *)
+Theorem C11_pytest_already_imported : forall imported v bad,
+  pytest_configure imported v = PAlready bad ->
+  bad <> [] /\ forall n, In n bad <-> In n (removelast (pytest_items v)) /\ In n imported.
+Proof. exact pytest_already_imported_spec. Qed.
+Print Assumptions C11_pytest_already_imported.
+
+Example C11_pytest_option_nonvacuous :
+  Forall good_item [("", "foo", " "); (" ", "bar.baz", ""); ("", "typeguard.typechecked", "")] /\
+  show_pytest ["zed"] "foo , bar.baz,typeguard.typechecked" ["foo.a"; "foobar"; "bar.baz.q"; "bar"] =
+  "zed=plain,foo=hooked:typeguard.typechecked,foo.a=hooked:typeguard.typechecked,foobar=plain,bar=plain,bar.baz=hooked:typeguard.typechecked,bar.baz.q=hooked:typeguard.typechecked" /\
+  show_pytest ["foo.a"] "foo,x.y" [] = "already-imported".
+Proof. split; [repeat constructor | split; vm_compute; reflexivity]. Qed.
+
+(* str.strip as modelled removes whitespace only, and all of it at both ends *)
+Theorem C11_strip_only_removes_whitespace : forall s, exists w1 w2,
+  all_ws w1 = true /\ all_ws w2 = true /\ s = w1 ++ pystrip s ++ w2.
+Proof. exact pystrip_only_removes_whitespace. Qed.
+Print Assumptions C11_strip_only_removes_whitespace.
+
+(* the IPython magic: for every history of magics, other extensions' transformers and cells, every cell is
+   instrumented by exactly the checker of the latest magic before it (by none before the first magic), and at
+   most one jaxtyping transformer is ever active; other transformers are kept, in order *)
+Theorem C11_magic_cells : forall ops,
+  cells (irun ops is0) = spec_cells ops None /\
+  cell_checkers (xfs (irun ops is0)) = opt_list (latest_magic ops None).
+Proof. intros ops. exact (magic_run ops is0 None eq_refl). Qed.
+Print Assumptions C11_magic_cells.
+
+Theorem C11_magic_keeps_other_transformers : forall ops,
+  nonjax (xfs (irun ops is0)) = others_added ops.
+Proof. intros ops. exact (magic_keeps_others ops is0). Qed.
+Print Assumptions C11_magic_keeps_other_transformers.
